@@ -353,23 +353,3 @@ Proof.
   - cbn [maybe_max_resources]. rewrite map_opt_enc_refl. reflexivity.
 Qed.
 
-(* the executable statement holds of the model's observation for every case outside the known finding *)
-Theorem spec_ok_run_partial c : known_region c = false -> spec_ok c (run c) = true.
-Proof.
-  destruct c; intros Hk.
-  - apply spec_new.
-  - apply spec_combine.
-  - apply spec_update.
-  - apply spec_with_defaults.
-  - apply spec_maybe.
-  - apply spec_dict.
-  - apply spec_from_dict.
-  - now apply spec_slurm.
-  - apply spec_maybe_max.
-Qed.
-
-Theorem spec_ok_run_refuted : exists c, known_region c = true /\ spec_ok c (run c) = false.
-Proof.
-  exists (CSlurm (mkR None None None None (Some 0%Z) None None [] (s "external"))).
-  split; vm_compute; reflexivity.
-Qed.
